@@ -37,7 +37,15 @@ def setup(rec, reach):
 
 
 def cases(shard, nshards, seed, tier):
-    return work3d.cases(ID, shard, nshards, seed, tier, want_models=True)
+    yield from work3d.cases(ID, shard, nshards, seed, tier, want_models=True)
+    # two Residue3D objects carrying the same identifiers (a nucleotide whose base atoms are listed after the rest of
+    # its chain): contacts between the two halves are contacts of a residue with itself
+    k = 0
+    for fn in ("tests/4qln.pdb", "tests/1ehz-assembly-1.cif", "tests/1A1T_1_B.cif", "tests/488d.pdb", "tests/1E7K_1_C.cif"):
+        for t in range(2 if tier == "quick" else 12):
+            k += 1
+            if k % nshards == shard:
+                yield {"family": "split-residue", "file": fn, "ops": [{"op": "split-residue", "seed": f"{seed}:C11:split:{fn}:{t}", "frac": 0.25}]}
 
 
 def _call(s, model):
